@@ -13,4 +13,7 @@ A5 == {<<100, 0>>, <<100, 20>>, <<100, 10>>, <<110, 10>>}
 G1 == {-15}
 G2 == {-5, -22}
 G3 == {-5, -15, -22}
+\* with a missing sea threshold (Tracking!MISSINGGAP) among the gaps
+G4 == {-15, 1}
+G5 == {-5, -22, 1}
 =============================================================================
